@@ -103,6 +103,15 @@ DERIVE = {
     'radd_obj': lambda x, Pm: Pm.Scalar(3.) + x if not x.numer and not x.is_bool() else x + x.wod if not x.is_bool() else x.clone(),
     'mul_one': lambda x, Pm: x * 1. if not x.is_bool() else x.clone(),
     'neg': lambda x, Pm: -x if not x.is_bool() else x.clone(),
+    # item relabelings that also cast to another class: the read-only status has to survive the cast even when it is
+    # carried by the object's flag alone (an array-indexed copy of a read-only object) - seeded change C08-L
+    'as_column': lambda x, Pm: x.as_column() if len(x.numer) == 1 and hasattr(x, 'as_column') else x.clone(),
+    'as_row': lambda x, Pm: x.as_row() if len(x.numer) == 1 and hasattr(x, 'as_row') else x.clone(),
+    'reshape_numer_cast': lambda x, Pm: (x.reshape_numer((1,) + tuple(x.numer), classes=(Pm.Matrix,)) if len(x.numer) == 1
+                                        else x.clone()),
+    'flatten_numer_cast': lambda x, Pm: x.flatten_numer(classes=(Pm.Vector,)) if len(x.numer) == 2 else x.clone(),
+    'swapxy': lambda x, Pm: x.swapxy() if type(x).__name__ == 'Pair' else x.clone(),
+    'to_pair': lambda x, Pm: x.to_pair((0, 1)) if len(x.numer) == 1 and x.numer[0] >= 2 and hasattr(x, 'to_pair') else x.clone(),
 }
 FRESH = ('copy', 'pycopy')      # must be writable and independent
 # results that share storage with the source (or must keep the status: pickle, copy_ro, deriv)
@@ -692,6 +701,13 @@ def run(ctx):
                 core.append([('make', mk), ('freeze', 0), ('derive', 0, via), ('mutate', 1, mu)])
             for dw in DIRECT:
                 core.append([('make', mk), ('freeze', 0), ('derive', 0, via), ('direct', 1, dw)])
+    # two derivations in a row: first an array-indexed copy of the frozen object (read-only by its flag alone), then
+    # every way of deriving an object from that copy, then a mutator / a direct write
+    for mk in MAKERS:
+        for via in DERIVE:
+            for mu in (list(MUTATE)[::3] if ctx.tier == 'quick' else MUTATE):
+                core.append([('make', mk), ('freeze', 0), ('derive', 0, 'advanced'), ('derive', 1, via), ('mutate', 2, mu)])
+            core.append([('make', mk), ('freeze', 0), ('derive', 0, 'advanced'), ('derive', 1, via), ('direct', 2, 'values')])
     # every non-mutating operation on every kind of object right after it was frozen (and on a view of it)
     for mk in MAKERS:
         for nm in sorted(NONMUT):
